@@ -425,8 +425,12 @@ pub fn run(ctx: &Ctx) -> ! {
     // error paths: valid structure (two edges + up to two further deviations) with one or two
     // invalidating deviations (name collisions, ill-typed filter, undefined tag, unknown property)
     // placed before / between / after it
-    let mut cfg5 = corpus::structures_cfg(&uni, 2, vec!["Pt", "Fco", "Fcf", "Fct", "Po"], 2);
-    cfg5.gen.invalid_devs = true;
+    // seeds: two-edge structures + one tag / count deviation (valid); then exactly one invalidating deviation
+    let base5 = corpus::structures_cfg(&uni, 1, vec!["Pt", "Fct", "Fco"], 2);
+    let seeds5: Vec<qast::Query> = qgen::enumerate(sm, &base5.seeds, 1, &base5.gen).into_iter().flatten().collect();
+    let mut cfg5 = CorpusCfg::new(1);
+    cfg5.seeds = seeds5;
+    cfg5.gen = qgen::GenCfg { allow: Some(vec![]), invalid_devs: true, naming_devs: false, ..Default::default() };
     cfg5.max_arg_maps = 0;
     let s_inv = corpus::drive(ctx, &uni, &cfg5, &|_| {}, &|_| {}, &on_panic);
     let mut cfg6 = CorpusCfg::new(ctx.tier.pick(2, 3));
